@@ -4,7 +4,7 @@ EXTRA_TARGETS = ("BS.Properties.C06r",)
 SUBS = ["C06sev", "C06"]
 PARALLEL = {"C06": 8}
 TIMEOUT = {"quick": 1500, "thorough": 7000}
-RULE = ("matrix: site {ReaderFunc, the stream of a ScanReader, WriterFunc, Scan callback, Map, Filter, Flatmap, Fold, Reduce combiner, Repartition partitioner} "
+RULE = ("sweep: the combine function of a Reduce with recurring keys failing at every call position 0..95 (persistent and one-shot) on two clusters; matrix: site {ReaderFunc, the stream of a ScanReader, WriterFunc, Scan callback, Map, Filter, Flatmap, Fold, Reduce combiner, Repartition partitioner} "
         "x mode {error, temporary error, panic, partition out of range (n and -1)} (as applicable to the site) x {persistent, one-shot} "
         "x failing call index k in {0,1,2,3,5,8,13,40} (first row, vector boundaries of CH 1/2/4, last rows, never) x downstream "
         "{nothing, reduce, reshuffle+map, head 2, head 4} x configuration {local with parallelism 4 and 1, bigmachine testsystem 2x2, 1x1, 1x4 with machine combiners} x vector size "
@@ -70,6 +70,15 @@ def gen(r, tier, sub):
             for s in ("plain", "-2", "-1", "0", "1"):
                 yield "%s %s" % (w, s)
         return
+    # the combine function failing at *every* call position of one Reduce whose keys recur (task-local table, its overflow into
+    # the per-partition buffer, the flush at end-of-stream, the consumer's merge): a sweep instead of the sampled positions
+    sweep_rows = " ".join("%d:%d" % ((i * 7) % 23, i) for i in range(92))
+    for k in range(0, 96):
+        for once in ("always", "once"):
+            for cfg in ("bm M2 P2", "bm M1 P1", "local P1"):
+                if tier == "quick" and cfg == "local P1" and k % 4:
+                    continue
+                yield "%s CH128 ;; FAULT N1 panic %d %s ; N0=const 2 %s ; N1=reduce N0 add ; OUT N1 ;; %s" % (cfg, k, once, sweep_rows, HEALTHY)
     allc = list(matrix())
     if tier == "quick":
         for site, c in allc:
